@@ -3,8 +3,9 @@
 EXTENDS Geometry, Json
 CONSTANTS DEPTH, MAXDEPTH, NBOX
 VARIABLES st, hist
-Boxes == << [x |-> 0, y |-> 0, cx |-> 1, cy |-> 1], [x |-> 2, y |-> 3, cx |-> 2, cy |-> 1], [x |-> 5, y |-> 1, cx |-> 0, cy |-> 4],
-            [x |-> -2, y |-> 4, cx |-> 3, cy |-> 3], [x |-> 1, y |-> 1, cx |-> 0, cy |-> 0], [x |-> 7, y |-> 7, cx |-> 1, cy |-> 2] >>
+\* (the third box lies entirely at negative coordinates: a group holding only such members has its far corner left of / above the origin)
+Boxes == << [x |-> 0, y |-> 0, cx |-> 1, cy |-> 1], [x |-> 2, y |-> 3, cx |-> 2, cy |-> 1], [x |-> -7, y |-> -5, cx |-> 2, cy |-> 1],
+            [x |-> 5, y |-> 1, cx |-> 0, cy |-> 4], [x |-> -2, y |-> 4, cx |-> 3, cy |-> 3], [x |-> 1, y |-> 1, cx |-> 0, cy |-> 0] >>
 RECURSIVE DepthOf(_, _)
 DepthOf(N, gid) == IF gid = 0 THEN 0 ELSE 1 + DepthOf(N, (CHOOSE n \in NodeSet(N) : n.id = gid).parent)
 Groups(N) == {n.id : n \in {m \in NodeSet(N) : m.grp}}
